@@ -201,8 +201,22 @@ def true_loop(c, uid):
       items.append({"k": "connect", "a": A("y%d" % i), "b": A("x%d" % i), "flip": c.random() < 0.5,
                     "op": "connect"})
   items.append({"k": "connect", "a": A("o"), "b": XP(0), "flip": False, "op": "connect"})
+  # a member that is tied INTO the cycle only by an explicit ordering constraint (U(up_k) < U(up_bias)) and
+  # feeds a value back into it: it belongs to the cyclic group although no signal reaches it from the group
+  bias = kind in ("or_ring", "and_ring") and c.random() < 0.35
+  if bias:
+    signals.append({"name": "bz", "kind": "wire", "type": w, "dims": []})
+    j = c.randrange(n)
+    k = c.choice([x for x in range(n) if x != j])     # k == j would INVERT the value pair (upbz, up_j)
+    for it in items:
+      if it["k"] == "comb" and it["name"] == "up%d" % j:
+        st = it["stmts"][0]
+        st[2] = ["bin", "or" if kind == "or_ring" else "and", st[2], rd(A("bz"), w)]
+    items.append({"k": "comb", "name": "upbz", "stmts": [["assign", A("bz"),
+                  ["bin", c.choice(["xor", "add", "or"]), rd(A("in1"), w), ["const", w, c.randrange(1 << w)]]]]})
+    items.append({"k": "constraint", "src": "U(up%d) < U(upbz)" % k})
   c.shuffle(items)
-  spec = {"uid": uid, "structs": structs, "top": "Top", "profile": "true_loop:" + kind + (":struct" if via_struct else ""),
+  spec = {"uid": uid, "structs": structs, "top": "Top", "profile": "true_loop:" + kind + (":struct" if via_struct else "") + (":bias" if bias else ""),
           "comps": {"Top": {"signals": signals, "subs": [], "frees": [], "items": items}}}
   must_converge = kind in ("or_ring", "mux", "inv_ring_even", "and_ring")
   never = kind == "inv_ring_odd"
